@@ -35,11 +35,14 @@ POOL_PROG = {
          "members": [["red", 1], ["green", "g"]], "fields": [], "required": [], "defaults": []},
         {"id": 1, "name": "Point", "qualname": "Point", "module": "vm_c08_a", "kind": "dataclass", "opts": [],
          "fields": [["x", ["int"]], ["y", ["int"]]], "required": ["x", "y"], "defaults": [], "members": [], "mixin": "none"},
+        # a class with a member of a type that is ALSO a member of the pool (one routine per type in a context: whichever node came first)
+        {"id": 2, "name": "Account", "qualname": "Account", "module": "vm_c08_a", "kind": "dataclass", "opts": [],
+         "fields": [["id", ["uuid"]], ["balance", ["int"]]], "required": ["id", "balance"], "defaults": [], "members": [], "mixin": "none"},
     ],
     "aliases": {},
 }
 POOL = [["int"], ["str"], ["float"], ["decimal"], ["date"], ["datetime"], ["uuid"], ["coll", "list", ["int"]],
-        ["dict", ["str"], ["int"]], ["cls", 1], ["enum", 0], ["lit", [1, "a"]],
+        ["dict", ["str"], ["int"]], ["cls", 1], ["enum", 0], ["lit", [1, "a"]], ["cls", 2],
         # members that CONTAIN another member of the pool (one anonymous type at two depths of the same union)
         ["dict", ["str"], ["coll", "list", ["int"]]], ["coll", "list", ["coll", "list", ["int"]]],
         ["dict", ["str"], ["dict", ["str"], ["int"]]], ["tuple", [["coll", "list", ["int"]], ["int"]]]]
@@ -48,7 +51,9 @@ INPUTS = [None, 0, 5, True, ["f", "1.5"], "5", "abc", "1.5", "null", "2020-01-02
           ["d", [["a", ["l", [1, "2"]]]]], ["l", [["l", ["1"]], ["l", [2, 3]]]],
           # iterables whose FIRST element is a 2-element collection (what iteritems reads as pairs): to list[int] they are two lists / two texts
           ["l", [["l", ["a", 1]], ["l", ["b", 2]]]], ["l", ["10", "20"]], ["l", [["t", ["a", "1"]]]], '[["a", 1], ["b", 2]]', ["d", [["k", ["d", [["a", "1"]]]]]], ["t", [["l", ["4"]], "5"]],
-          ["d", [["x", "1"], ["y", 2]]], ["o", 1, [["x", 1], ["y", 2]]], ["m", 0, 0], ["dec", "2.5"], ["date", 737426],
+          ["d", [["x", "1"], ["y", 2]]], ["o", 1, [["x", 1], ["y", 2]]],
+          ["d", [["id", "12345"], ["balance", "7"]]], ["d", [["id", "\"00000000-0000-0000-0000-000000000005\""], ["balance", 1]]],
+          ["d", [["id", "00000000-0000-0000-0000-000000000005"], ["balance", "2"]]], '{"id": "12345", "balance": 3}', ["d", [["id", 7], ["balance", 0]]], ["m", 0, 0], ["dec", "2.5"], ["date", 737426],
           ["dt", 1577934245000006, 0], ["uuid", 7], ["b", "bytes", "7"], ["x", "opaque"], ["l", []], ["d", []], "", ["t", [1, 2]],
           # boundary numbers: members reject them with other exception classes (OverflowError, InvalidOperation, ...)
           ["f", "inf"], ["f", "-inf"], ["f", "nan"], ["dec", "Infinity"], ["dec", "NaN"], 10 ** 400, -(10 ** 400), "inf", "1e999",
